@@ -31,6 +31,7 @@ func runC13(r *an.Run) {
 	c13NamesInert(r)
 	c13SpellingInert(r)
 	c13OrderOnly(r)
+	memoDependencies(r, "R4-no-spelling-is-special")
 }
 
 func c13CommentsSkipped(r *an.Run) {
